@@ -1,7 +1,7 @@
 /-
 Unfolding of a script-function invocation (callFn on a closure, non-variadic) into named parts.
 -/
-import Anko.Model.Eval
+import Anko.Proofs.EvalPoll
 
 set_option linter.unusedSectionVars false
 
